@@ -104,6 +104,20 @@ def operand(pairs, kind):
     raise AssertionError(kind)
 
 
+class KeysOnly:
+    """The minimum dict.update() asks of a mapping: keys() and __getitem__ (no items(), no __iter__ --
+    sqlite3.Row, shelve-like and C-level mapping objects look like this)."""
+
+    def __init__(self, pairs):
+        self._d = dict(pairs)
+
+    def keys(self):
+        return list(self._d)
+
+    def __getitem__(self, k):
+        return self._d[k]
+
+
 def source_cache(pairs, form):
     """Another LRI/LRU filled by assigning the pairs one by one (a repeated key is re-assigned, so the
     source's recency order differs from its iteration order), big enough to evict nothing."""
@@ -137,7 +151,7 @@ def model_op(op):
     if name in ('update', 'ior'):
         pairs = dpairs(op[1])
         form = op[2] if len(op) > 2 else 'dict'
-        if form in ('dict', 'kwargs', 'bothdict', 'lri_src', 'lru_src'):
+        if form in ('dict', 'kwargs', 'bothdict', 'lri_src', 'lru_src', 'keysonly'):
             # (another cache as the source is read like any mapping: in its iteration order)
             pairs = list(dict(pairs).items())
         if form in ('both', 'bothdict'):
@@ -261,6 +275,8 @@ def exec_op(c, op, ctx):
                 c.update(iter(pairs))
             elif form in ('lri_src', 'lru_src'):
                 c.update(source_cache(pairs, form))
+            elif form == 'keysonly':
+                c.update(KeysOnly(pairs))
             elif form == 'both':
                 kw = dict(dpairs(op[3]))
                 c.update(pairs, **kw)
